@@ -6,10 +6,14 @@
 // section 4.2:  algorithm name + 6 (time) + 2 (fudge) + 2 (MAC size) + MAC
 // + 2 (original id) + 2 (error) + 2 (other len) + other data.
 // `sign_response` / `sign_subsequent` REQUIRE the prior MAC to be at most
-// 65,535 octets (the real functions `assert!` it).
+// 65,535 octets (the real functions `assert!` it).  All three signers REQUIRE what the
+// TSIG unit's verified contracts (units/frag/tsig_fns.vrs) require: a valid key name, a message
+// of at least 12 octets whose ARCOUNT field is at least 1 (add_modified_message subtracts the
+// TSIG RR from it); `unsigned` requires a valid algorithm name.
 pub mod tsig_standin_w {
     use vstd::prelude::*;
     use crate::name_standin::Name;
+    use crate::spec_writer::hdr16;
     use crate::name_standin_w::LowercaseName;
     use crate::rdata_standin_w::Rdata;
     use crate::message::tsig::{Algorithm, PreparedTsigRr};
@@ -41,6 +45,7 @@ pub mod tsig_standin_w {
     impl PreparedTsigRr {
         #[verifier::external_body]
         pub fn sign_request(&self, message: &[u8], algorithm: Algorithm, key: &[u8]) -> (r: (Box<Rdata>, Box<[u8]>))
+            requires self.key_name.name().wf(), message@.len() >= 12, hdr16(message@, 10) >= 1,
             ensures
                 r.1@.len() == algorithm.output_size_spec(),
                 r.0.octets().len() == tsig_rdata_len(*self, algorithm.name_spec().name().wire().len() as int, algorithm.output_size_spec() as int),
@@ -48,7 +53,7 @@ pub mod tsig_standin_w {
 
         #[verifier::external_body]
         pub fn sign_response(&self, message: &[u8], request_mac: &[u8], algorithm: Algorithm, key: &[u8]) -> (r: (Box<Rdata>, Box<[u8]>))
-            requires request_mac@.len() <= 65535,
+            requires request_mac@.len() <= 65535, self.key_name.name().wf(), message@.len() >= 12, hdr16(message@, 10) >= 1,
             ensures
                 r.1@.len() == algorithm.output_size_spec(),
                 r.0.octets().len() == tsig_rdata_len(*self, algorithm.name_spec().name().wire().len() as int, algorithm.output_size_spec() as int),
@@ -56,7 +61,7 @@ pub mod tsig_standin_w {
 
         #[verifier::external_body]
         pub fn sign_subsequent(&self, message: &[u8], prior_mac: &[u8], algorithm: Algorithm, key: &[u8]) -> (r: (Box<Rdata>, Box<[u8]>))
-            requires prior_mac@.len() <= 65535,
+            requires prior_mac@.len() <= 65535, self.key_name.name().wf(), message@.len() >= 12, hdr16(message@, 10) >= 1,
             ensures
                 r.1@.len() == algorithm.output_size_spec(),
                 r.0.octets().len() == tsig_rdata_len(*self, algorithm.name_spec().name().wire().len() as int, algorithm.output_size_spec() as int),
@@ -64,6 +69,7 @@ pub mod tsig_standin_w {
 
         #[verifier::external_body]
         pub fn unsigned(&self, algorithm: &LowercaseName) -> (r: Box<Rdata>)
+            requires algorithm.name().wf(),
             ensures
                 r.octets().len() == tsig_rdata_len(*self, algorithm.name().wire().len() as int, 0),
         { unimplemented!() }
